@@ -9,6 +9,7 @@ import (
 	"sort"
 	"strconv"
 	"strings"
+	"sync"
 	"time"
 
 	cdc "github.com/craterdog/go-collection-framework/v4/cdcn"
@@ -585,8 +586,61 @@ func scheduleUnit(doc string) func(r *engine.Rec) {
 
 // twoParses: two parses running at the same time (each with its own notation, scanner and parser) must both
 // give the result they give alone, on every schedule up to the bound.
-func twoParses(r *engine.Rec) {
-	docs := [2]string{"[1, \"a\", [true](Set)](List)", "[\n    'x': 2.5\n    'y': nil\n](Catalog)\n"}
+func twoParses(name string, docs [2]string) func(r *engine.Rec) {
+	return func(r *engine.Rec) { twoParsesOf(r, name, docs) }
+}
+
+var twoParseDocs = map[string][2]string{
+	"two-parses": {"[1, \"a\", [true](Set)](List)", "[\n    'x': 2.5\n    'y': nil\n](Catalog)\n"},
+	// both parses order nested collections as Set items (whatever ranks them is used by both at the same time)
+	"two-parses-of-sets": {"[[2](List), [1](List)](Set)", "[[4](List), [3](List)](Set)"},
+}
+
+// reuseAfterRejection: one parser instance rejects a source and is then given a valid sentence; whatever the
+// first call left running (its scanner, a cleaner) must not touch the second parse, on any schedule.
+func reuseAfterRejection(r *engine.Rec) {
+	bad, good := "[1 2, 3, 4](List)", "[5, 6](List)"
+	want := dump.Dump(cdcnx.Parse(good).Value)
+	prog := func() ([]rt.ThreadSpec, func(*rt.Exec) []string) {
+		var val any
+		var first, second rt.Outcome
+		body := func() {
+			p := cdc.Parser().Make()
+			first = rt.Protect(0, func() { p.ParseSource(bad) })
+			second = rt.Protect(0, func() { val = p.ParseSource(good) })
+		}
+		return []rt.ThreadSpec{{Name: "caller", Body: body}}, func(ex *rt.Exec) []string {
+			var what []string
+			switch {
+			case !first.Panicked:
+				what = append(what, "an ill-formed source is accepted\x00"+bad)
+			case second.Panicked:
+				what = append(what, "a sentence is rejected by a parser that rejected another source before\x00"+fmt.Sprintf("%q after %q: %s", good, bad, firstLine(second.Value)))
+			case dump.Dump(val) != want:
+				what = append(what, "the result of ParseSource changes on a parser that rejected another source before\x00"+fmt.Sprintf("%q after %q: %s vs %s", good, bad, dump.Dump(val), want))
+			}
+			if len(ex.Stuck) > 0 {
+				what = append(what, "deadlock or leaked goroutine when a parser is used again after a rejection\x00"+fmt.Sprint(ex.SortedStuck()))
+			}
+			for _, rc := range ex.Races {
+				what = append(what, common.RaceSig(rc)+"\x00"+rc.String())
+			}
+			for _, p := range ex.Panics {
+				if p.Library {
+					what = append(what, "scanner goroutine panics\x00"+p.Value)
+				}
+			}
+			return what
+		}
+	}
+	o := schedx.Opts{Name: "reuse-after-rejection", Desc: bad + " ; then " + good + " on the same parser", SigPrefix: "parser reuse: ", SkipA: true, Bounds: []int{0, 1, 2}, CapB: 60000, ColdStart: []int{0, 1}, ColdCap: 30000}
+	if r.Tier == "thorough" {
+		o.Bounds, o.CapB = []int{0, 1, 2, 3}, 1500000
+	}
+	schedx.Explore(r, prog, o)
+}
+
+func twoParsesOf(r *engine.Rec, name string, docs [2]string) {
 	var want [2]string
 	for i, d := range docs {
 		res := cdcnx.Parse(d)
@@ -623,7 +677,12 @@ func twoParses(r *engine.Rec) {
 			return what
 		}
 	}
-	o := schedx.Opts{Name: "two-parses", Desc: docs[0] + " || " + docs[1], SigPrefix: "two parses: ", SkipA: true, Bounds: []int{0, 1}, CapB: 60000}
+	o := schedx.Opts{Name: name, Desc: docs[0] + " || " + docs[1], SigPrefix: "two parses: ", SkipA: true, Bounds: []int{0, 1}, CapB: 60000, ColdStart: []int{0, 1}, ColdCap: 30000}
+	if name == "two-parses-of-sets" {
+		// four threads that block on each other all the time: bound 1 does not complete in the quick tier; the cap
+		// keeps the unit short (the evidence reports the bound completed)
+		o.CapB, o.ColdCap = 15000, 8000
+	}
 	if r.Tier == "thorough" {
 		o.Bounds, o.CapB = []int{0, 1, 2}, 1500000
 	}
@@ -631,6 +690,7 @@ func twoParses(r *engine.Rec) {
 }
 
 func init() {
+	engine.RegisterRacePrograms("C11", racePrograms)
 	engine.Register(&engine.Check{
 		ID:        "C11",
 		Technique: "bounded-exhaustive enumeration of grammar derivations produced together with their meaning (no second parser as oracle): every literal alternative and boundary literal in nine syntactic positions, all collections over representative literals (7 contexts, empty/inline/multi-line forms, values and associations, repeated keys, nesting depth 2, 3 thorough) parsed on the real scanner+parser under the scheduler; plus stateless model checking of the scanner/parser goroutine pair on documents shorter and longer than the token queue (all schedules up to a preemption bound, race detection)",
@@ -639,11 +699,46 @@ func init() {
 		Budget:    func(string) time.Duration { return 5 * time.Minute },
 		Units: func(string) []engine.Unit {
 			us := []engine.Unit{{Name: "literals", Run: literalPositions}, {Name: "structure", Run: structure}}
-			us = append(us, engine.Unit{Name: "schedules-two-parses", Run: twoParses})
+			for _, n := range []string{"two-parses", "two-parses-of-sets"} {
+				us = append(us, engine.Unit{Name: "schedules-" + n, Run: twoParses(n, twoParseDocs[n])})
+			}
+			us = append(us, engine.Unit{Name: "schedules-reuse-after-rejection", Run: reuseAfterRejection})
+			us = append(us, engine.RacePassUnit("C11"))
 			for i, d := range scheduleDocs() {
 				us = append(us, engine.Unit{Name: fmt.Sprintf("schedules-%d", i), Run: scheduleUnit(d)})
 			}
 			return us
 		},
 	})
+}
+
+// racePrograms: the simultaneous parses of the schedule units, run free for the
+// auxiliary pass under Go's race detector (two and four parsers at once).
+func racePrograms() []engine.RaceProgram {
+	var ps []engine.RaceProgram
+	mk := func(name string, docs []string) {
+		ps = append(ps, engine.RaceProgram{Name: name, Run: func() {
+			var start, done sync.WaitGroup
+			start.Add(1)
+			for _, d := range docs {
+				d := d
+				done.Add(1)
+				go func() {
+					defer done.Done()
+					defer func() { recover() }()
+					start.Wait()
+					cdc.Notation().Make().ParseSource(d)
+				}()
+			}
+			start.Done()
+			done.Wait()
+		}})
+	}
+	for n, d := range twoParseDocs {
+		mk(n, d[:])
+		mk(n+" twice", []string{d[0], d[1], d[0], d[1]})
+	}
+	deep := "[[[[3](List), [2](List)](Set), [[1](List)](Set)](Set), [[[0](List)](Set)](Set)](Set)"
+	mk("nested sets", []string{deep, deep, "[[2](List), [1](List)](Set)", deep})
+	return ps
 }
